@@ -468,3 +468,19 @@ PROPS["C02"]["functions"] += ["E2: Authenticator::make_credential::{closure#0} (
 PROPS["C02"]["technique"] = "Kani/CBMC bounded model checking (algorithm choice, id length) + symbolic path execution of rustc MIR (data flow of make_credential)"
 PROPS["C02"]["explanation"] += " E2: in make_credential the algorithm comes from the request's list through choose_algorithm (error before any key generation / store call), the key pair is generated for it, and the one credential saved holds that private key, the freshly generated id (of non-constant length) and the request's rp.id, which is also what the authenticator data is built for."
 PROPS["C02"]["level_text"] = "PARTIAL claim: the algorithm-choice and credential-id-length kernels (E1) and the data flow of make_credential (E2); the cryptographic and encoding clauses of the registration result are outside the claim."
+
+prop("C19",
+     title="Shared-store concurrency never reuses a counter or loses a credential",
+     engine="mirsym",
+     engines=[_e2.engine], e2=["concurrency"],
+     functions=["Authenticator::get_assertion::{closure#0} (MIR)", "<Arc<tokio::sync::Mutex<S>> as CredentialStore>::{find_credentials, update_credential} (MIR)",
+                "<Arc<tokio::sync::RwLock<S>> as CredentialStore>::{find_credentials, update_credential} (MIR)"],
+     stubs=["every callee is an environment event; each store call through a lock wrapper is one atomic step (checked on the wrappers' MIR: the guard is taken and released inside the call)"],
+     explanation="assert/assert on one credential: from the MIR, the counter is read by the lookup and written by a separate update call with a suspension point between them, and the "
+                 "lock wrappers lock per call; z3 decides over every order of the two ceremonies' read/write steps (each ceremony's own order kept, all 2^32 start values) whether both can "
+                 "report the same counter; a satisfying schedule is replayed natively with two authenticators sharing Arc<Mutex<store>> / Arc<RwLock<store>> and explicit polling",
+     outside=["deadlock freedom", "register/register and assert/register interleavings (lost credentials)", "three concurrent ceremonies", "real multi-threaded schedulers (the replay uses explicit single-threaded polling)"],
+     level_text="PARTIAL claim: the pairwise-distinct-counters clause for two concurrent assertions; deadlock freedom and registrations are not decided.",
+     technique="symbolic path execution of rustc MIR (read / suspend / write structure, lock scope) + z3 query over all interleavings of two ceremonies' atomic steps, native replay",
+     trusted=E2_TRUST,
+     )
